@@ -281,6 +281,16 @@ func runC01(c *core.Case) {
 		if !fail {
 			fail = !write(5)
 			e.converge("before demotion")
+			// an application on the primary has read the databases through its mount
+			// (kernel page cache filled with the database file's pages, WAL not
+			// checkpointed): what the node's own role-change recovery rewrites must
+			// not be served from that cache once the node is a replica
+			for _, name := range e.names {
+				e.owner++
+				if _, err := mountRead(c, prim.Node, name, e.owner); err == nil {
+					c.Count("primary_cache_warmed_before_change", 1)
+				}
+			}
 			for _, w := range writers {
 				w.close()
 			}
